@@ -43,7 +43,7 @@ func C08(c *Ctx) {
 						return false
 					}
 					return t.Contains(func(s *core.Term) bool {
-						return s.IsCallTo("(*"+pBM+"MethodEntry)."+map[string]string{"src": "SrcVar", "dst": "DstVar"}[w])
+						return s.IsCallTo("(*" + pBM + "MethodEntry)." + map[string]string{"src": "SrcVar", "dst": "DstVar"}[w])
 					})
 				}))
 		}
